@@ -382,7 +382,8 @@ def sibling_cases(tier, seed):
   """One case = one document (pool, group-by sets of the sibling summary tables) + the order in
   which the renames are chained on it."""
   for pi, pool in enumerate(SIB_POOLS):
-    subsets = [g for k in (1, 2) for g in itertools.combinations(pool, k)]
+    cols = pool[:3] if tier == "quick" else pool      # quick: group-by sets over the first 3 columns
+    subsets = [g for k in (1, 2) for g in itertools.combinations(cols, k)]
     groups = list(itertools.combinations(subsets, 2))
     if tier == "thorough":
       groups += list(itertools.combinations(subsets, 3))
@@ -696,6 +697,7 @@ def main():
                % (len(BATCH_POOL), len(BATCH_AVOID), 3000 if tier == "quick" else 60000),
     "pick_col_name": "%d tables x %d names x old ids x 4 avoid_extra" % (len(PCN_TABLES), len(PCN_NAMES)),
     "sibling_summary_tables": "column pools %r; every %s of distinct group-by sets of 1-2 columns of a pool "
+                              "(quick: of its first 3 columns) "
                               "as summary tables of one source table; then a chain of renames, every id "
                               "examined after each: RenameTable source to a new name, RenameTable source "
                               "changing only case, UpdateRecord _grist_Tables tableId, BulkUpdateRecord "
